@@ -130,6 +130,9 @@ enum Fam {
     NestedAnchors { d: u32, n: u32, block: bool },
     WideMerge { m: u32, k: u32 },
     LongKey { n: u32 },
+    /// entries whose key is a small collection (`kind` 0: `{k: v}`, 1: `[k]`, 2: `{k: v, l: w}`)
+    /// nested d deep around a payload of n nodes: keys are captured, values must stream
+    KeyNest { d: u32, n: u32, kind: u8 },
     Doc { doc: Node, layout: Layout },
 }
 #[derive(Clone, Copy, Debug, Serialize, Deserialize, PartialEq)]
@@ -250,6 +253,24 @@ fn text_of(f: &Fam) -> String {
                 s.push_str(&(i % 7).to_string());
             }
             s.push_str("]\n: v\n");
+        }
+        Fam::KeyNest { d, n, kind } => {
+            let key = ["{k: v}", "[k]", "{k: v, l: w}"][*kind as usize % 3];
+            for _ in 0..*d {
+                s.push_str(&format!("{{{key}: "));
+            }
+            s.push('[');
+            for i in 0..*n {
+                if i > 0 {
+                    s.push_str(", ");
+                }
+                s.push_str(&(i % 10).to_string());
+            }
+            s.push(']');
+            for _ in 0..*d {
+                s.push('}');
+            }
+            s.push('\n');
         }
         Fam::Doc { doc, layout } => return gdoc::render(doc, layout).text,
     }
@@ -562,6 +583,13 @@ impl Property for C08 {
         for n in [1, 100, 5000] {
             fams.push(Fam::LongKey { n });
         }
+        for d in [1, 4, 16, 60] {
+            for n in [10, 500, 2000] {
+                for kind in 0..3 {
+                    fams.push(Fam::KeyNest { d, n, kind });
+                }
+            }
+        }
         let mut idx = 0u64;
         let mut total = 0u64;
         for f in &fams {
@@ -592,4 +620,10 @@ impl Property for C08 {
 
 fn main() {
     engine::main::<C08>()
+}
+
+/// entry point of the libFuzzer target `fuzz/fuzz_targets/c08.rs`
+#[allow(dead_code)]
+pub fn fuzz(data: &[u8]) {
+    engine::fuzz_one::<C08>(data)
 }
